@@ -13,7 +13,7 @@ from scales.message import MethodReturnMessage
 ID = 'C05'
 LEVEL = 'exploration'
 RULE = ('Hypothesis-generated join / leave histories (duplicate joins, leaves of unknown members, re-joins) over a pool '
-        'of 9 endpoints, interleaved with dispatch / complete / down / up / advance, against heap and aperture balancers '
+        'of 9 endpoints, interleaved with dispatch / complete / down / up / advance / leave-and-re-join of a member the aperture is just connecting to, against heap and aperture balancers '
         'whose provider returns the initial list after a drawn delay (0-20 ms) while notifications are being delivered by '
         'a single serial notifier. At every quiescent step after loading: balancer\'s known servers == model server set; '
         'heap endpoints == server set (heap) or active + idle partition == server set (aperture). At the end, for the '
@@ -39,6 +39,7 @@ def strategy(tier):
       (1, st.tuples(st.just('down'), st.integers(0, 8), st.booleans()).map(list)),
       (1, st.tuples(st.just('up'), st.integers(0, 8)).map(list)),
       (2, st.tuples(st.just('advance'), st.sampled_from([1, 2, 5, 10, 30])).map(list)),
+      (2, st.tuples(st.just('flap_pending'), st.integers(0, 3)).map(list)),
   ]
   cfg = lb_config().flatmap(lambda c: st.sampled_from([0, 0, 3, 10, 20]).map(lambda d: dict(c, getservers_delay_ms=d)))
   return st.fixed_dictionaries({'config': cfg, 'ops': sized_list(weighted(*pairs), 0, 70 if tier == 'quick' else 180)})
